@@ -55,6 +55,20 @@ CLAIMED = {
             'Theorems parse_strict_iff / parse_strict_error over the parse model for every table and string; flag independence '
             'of non-strict parsing is decided by the oracle (four flag assignments of the table), not by a theorem.',
             '', 'DESIGN.md section 4 C12'),
+    'C16': ('Coq proof (matcher as a map under add / re-add; finalisation changes no look-up and refuses additions; Aho-Corasick '
+            'correctness: iter reports exactly the occurrences of stored word sequences in the word pieces of the text, with '
+            'positions) + exhaustive name sets x texts and operation sequences against the model, brute-force occurrence oracle',
+            'Theorems for every sequence of add() calls, every well-formed trie and every text; the automaton is modelled on '
+            'paths with the failure link computed as make_automaton computes it (from the parent link), proved equal to the '
+            'longest proper suffix; scan_exact is soundness and completeness at once.',
+            'Names without any word and include_space=True are outside; stored values are truthy.', 'DESIGN.md section 4 C16'),
+    'C17': ('Coq proof (filter_overlapping output is in text order, pairwise disjoint and drawn from the input, for any input; '
+            'every token of Trie.tokenize is the slice of the text at its positions) - partial: coverage and selection rules by '
+            'exhaustive interval configurations and the oracle',
+            'Theorems over the zipper transcription of the nested index loops with deletion; the coverage clause and the '
+            'leftmost-longest / isolated / pair rules are decided by the oracle on all interval multisets up to a bound and on '
+            'generated overlap chains, and by the correspondence.',
+            'Partial proof, see Props/C17.v header.', 'DESIGN.md section 4 C17'),
 }
 
 NOT_YET = 'check under construction in this session; see DESIGN.md section 4 for the planned theorem'
